@@ -79,6 +79,7 @@ type ScriptConn struct {
 	Faults map[int]*Fault // keyed by write-side op index
 	widx   int
 	closed chan struct{}
+	wake   chan struct{}
 	once   sync.Once
 	NClose int
 
@@ -100,8 +101,11 @@ type ScriptConn struct {
 // New returns a ScriptConn with the given inbound script.
 func New(in []Chunk) *ScriptConn {
 	n := 0
-	return &ScriptConn{In: in, seq: &n, seqMu: &sync.Mutex{}, closed: make(chan struct{}), Faults: map[int]*Fault{}}
+	return &ScriptConn{In: in, seq: &n, seqMu: &sync.Mutex{}, closed: make(chan struct{}), wake: make(chan struct{}, 1), Faults: map[int]*Fault{}}
 }
+
+// GID returns the current goroutine's id.
+func GID() int64 { return gid() }
 
 func gid() int64 {
 	var b [64]byte
@@ -133,7 +137,12 @@ func (c *ScriptConn) Read(p []byte) (int, error) {
 		if c.inPos >= len(c.In) {
 			if c.Block {
 				c.mu.Unlock()
-				<-c.closed
+				select {
+				case <-c.wake:
+					c.mu.Lock()
+					continue
+				case <-c.closed:
+				}
 				c.mu.Lock()
 				err := errors.New("script: use of closed connection")
 				c.log(&Op{Kind: OpRead, Err: err, WIdx: -1})
@@ -340,4 +349,15 @@ func (c *ScriptConn) BytesRead() int {
 	c.mu.Lock()
 	defer c.mu.Unlock()
 	return c.nread
+}
+
+// AppendInWake appends chunks and wakes a reader blocked at the end of the script.
+func (c *ScriptConn) AppendInWake(ch ...Chunk) {
+	c.mu.Lock()
+	c.In = append(c.In, ch...)
+	c.mu.Unlock()
+	select {
+	case c.wake <- struct{}{}:
+	default:
+	}
 }
